@@ -14,6 +14,7 @@ func (r *SaslHandshakeRequest) encode(pe packetEncoder) error {
 }
 
 func (r *SaslHandshakeRequest) decode(pd packetDecoder, version int16) (err error) {
+	r.Version = version
 	if r.Mechanism, err = pd.getString(); err != nil {
 		return err
 	}
